@@ -95,6 +95,18 @@ def rand_grid(rng):
     else:
         R, C = rng.randint(1, 40), rng.randint(1, 12)
     grid = [[rand_cell(rng) for _ in range(C)] for _ in range(R)]
+    if rng.random() < .08:
+        # a file that looks as if it were delimited by something else: the same number of semicolons / tabs / bars in every
+        # line (inside cells), and no or irregular commas - CSV means comma-separated whatever the content suggests
+        sep = rng.choice(["; ", ";", "\t", "|", " "])
+        col = rng.randrange(C)
+        for row in grid:
+            row[col] = f"{rng.choice(['Smith', 'de la Cruz', 'x', '12'])}{sep}{rng.choice(['Jane', 'y', '7', 'A B'])}"
+        if rng.random() < .5:
+            for row in grid:
+                for c2 in range(C):
+                    if c2 != col and "," in row[c2]:
+                        row[c2] = row[c2].replace(",", "")
     dup_header = False
     bom_first = rng.random() < .06
     if rng.random() < .85:
